@@ -7,7 +7,7 @@
 (* A document is a sequence of tokens [role, k, s, n, b]:                   *)
 (*   k = "s"    the literal text s                                          *)
 (*   k = "b"    the raw bytes b                                             *)
-(*   k = "rep"  the text s repeated n times                                 *)
+(*   k = "rep"  the text p, then the text s repeated n times               *)
 (*   k = "pad"  the byte 'a' repeated until the document so far is n bytes  *)
 (* role names the grammatical position (method, sp, target, version, crlf,  *)
 (* hname, hsep, hvalue, blank, body), which decides what a token may be     *)
@@ -15,10 +15,11 @@
 (***************************************************************************)
 EXTENDS Naturals, Sequences, FiniteSets
 
-Tk(role, s)        == [role |-> role, k |-> "s", s |-> s, n |-> 0, b |-> <<>>]
-TkB(role, b)       == [role |-> role, k |-> "b", s |-> "", n |-> 0, b |-> b]
-TkRep(role, s, n)  == [role |-> role, k |-> "rep", s |-> s, n |-> n, b |-> <<>>]
-TkPad(role, n)     == [role |-> role, k |-> "pad", s |-> "", n |-> n, b |-> <<>>]
+Tk(role, s)        == [role |-> role, k |-> "s", s |-> s, n |-> 0, b |-> <<>>, p |-> ""]
+TkB(role, b)       == [role |-> role, k |-> "b", s |-> "", n |-> 0, b |-> b, p |-> ""]
+TkRep(role, s, n)  == [role |-> role, k |-> "rep", s |-> s, n |-> n, b |-> <<>>, p |-> ""]
+TkPad(role, n)     == [role |-> role, k |-> "pad", s |-> "", n |-> n, b |-> <<>>, p |-> ""]
+TkPre(role, p, s, n) == [role |-> role, k |-> "rep", s |-> s, n |-> n, b |-> <<>>, p |-> p]     \* the prefix p, then s repeated n times
 
 CRLF == Tk("crlf", "\r\n")
 SP   == Tk("sp", " ")
@@ -84,6 +85,17 @@ Seeds == {
   [id |-> "upload_file_nested", doc |-> Request("POST", "/form-multipart-enctype-post-method", "HTTP/1.1",
                               <<Host, Hdr("Content-Type", "multipart/form-data; boundary=b1"), Hdr("Content-Length", "181")>>,
                               Tk("body", "--b1\r\nContent-Disposition: form-data; name=\"note\"\r\n\r\nhello\r\n--b1\r\nContent-Disposition: form-data; name=\"f\"; filename=\"docs/new.html\"\r\nContent-Type: text/html\r\n\r\n<p>new</p>\r\n--b1--\r\n"))],
+  \* a client that answers the server's own advertisement (Accept-CH / Critical-CH): every client hint it asked for, plus what a
+  \* browser sends anyway -- responses to such a request are responses too
+  [id |-> "get_browser_like", doc |-> Request("GET", "/a.txt", "HTTP/1.1",
+                              <<Host, Hdr("User-Agent", "Mozilla/5.0 (X11; Linux x86_64)"), Hdr("Accept", "text/html,*/*;q=0.8"), Hdr("Accept-Language", "en-US,en;q=0.5"),
+                                Hdr("Accept-Encoding", "gzip, deflate, br"), Hdr("Connection", "keep-alive"), Hdr("Upgrade-Insecure-Requests", "1"),
+                                Hdr("If-Modified-Since", "Sat, 01 Jan 2022 00:00:00 GMT"), Hdr("If-None-Match", "\"abc\""), Hdr("Cache-Control", "max-age=0"),
+                                Hdr("Sec-CH-UA-Arch", "\"x86\""), Hdr("Sec-CH-UA-Bitness", "\"64\""), Hdr("Sec-CH-UA-Full-Version-List", "\"Chromium\";v=\"120.0.0.0\""),
+                                Hdr("Sec-CH-UA-Model", "\"\""), Hdr("Sec-CH-UA-Platform-Version", "\"6.1.0\""), Hdr("Downlink", "10"), Hdr("ECT", "4g"), Hdr("RTT", "50"),
+                                Hdr("Save-Data", "on"), Hdr("Device-Memory", "8"), Hdr("Sec-CH-Prefers-Reduced-Motion", "no-preference"),
+                                Hdr("Sec-CH-Prefers-Color-Scheme", "dark"), Hdr("Sec-Fetch-Dest", "document"), Hdr("Sec-Fetch-Mode", "navigate"),
+                                Hdr("DNT", "1"), Hdr("X-Forwarded-For", "10.0.0.1"), Hdr("Referer", "http://localhost/index.html")>>, NoBody)],
   \* two requests in one segment: the server reads a connection once and must answer exactly once
   [id |-> "pipelined_gets", doc |-> Request("GET", "/a.txt", "HTTP/1.1", <<Host>>,
                               Tk("body", "GET /index.html HTTP/1.1\r\nHost: localhost\r\n\r\nGET /nx HTTP/1.1\r\nHost: localhost\r\n\r\n"))],
@@ -119,7 +131,18 @@ Alts(role) ==
                                Alt(Tk(role, "/docs"), "any"), Alt(Tk(role, "/docs/deep/../../a.txt"), "any"),
                                Alt(TkRep(role, "/a", 4500), "any"), Alt(TkB(role, <<47, 255, 47>>), "reject"),
                                Alt(TkB(role, <<47, 0, 47>>), "any"), Alt(Tk(role, "/form-get-method?"), "any"),
-                               Alt(Tk(role, "/form-get-method?=&&=="), "any"), Alt(Tk(role, "/file-upload/initiate?name=../../x&lastModified=z&size=-1"), "any") }
+                               Alt(Tk(role, "/form-get-method?=&&=="), "any"),
+                               \* queries that end inside an escape, end with '+', carry multi-byte text or repeat a name in several spellings
+                               Alt(Tk(role, "/form-get-method?k=%"), "any"), Alt(Tk(role, "/form-get-method?k=%4"), "any"), Alt(Tk(role, "/form-get-method?k=v+"), "any"),
+                               Alt(Tk(role, "/form-get-method?k=é😀&é=1"), "any"), Alt(Tk(role, "/form-get-method?a=1&a=2&A=3"), "any"),
+                               Alt(Tk(role, "/nx-é😀.html"), "any"),
+                               \* a dictionary of parameter names servers commonly act on, each carrying an (encoded) line break and a fake header:
+                               \* whatever the server echoes from the query must not split the head (HttpMsg: HasHdr(r, "injected"))
+                               Alt(Tk(role, "/a.txt?download=x%0D%0AInjected:%201&filename=y%0D%0AInjected:%201&name=z%0D%0AInjected:%201&file=a%0D%0AInjected:%201&attachment=b%0D%0AInjected:%201&redirect=c%0D%0AInjected:%201&url=d%0D%0AInjected:%201&next=e%0D%0AInjected:%201&return=f%0D%0AInjected:%201&callback=g%0D%0AInjected:%201&type=h%0D%0AInjected:%201&format=i%0D%0AInjected:%201&lang=j%0D%0AInjected:%201&charset=k%0D%0AInjected:%201&disposition=l%0D%0AInjected:%201"), "any"),
+                               Alt(Tk(role, "/a.txt?download=x%0d%0aInjected:%201&filename=y%0d%0aInjected:%201&name=z%0d%0aInjected:%201&redirect=c%0d%0aInjected:%201&type=h%0d%0aInjected:%201"), "any"),
+                               Alt(Tk(role, "/a.txt?download=x\rInjected: 1&filename=y\rInjected: 1&name=z\rInjected: 1&type=h\rInjected: 1"), "any"),
+                               Alt(Tk(role, "/a.txt?download&filename&name&attachment&type=text/html&format=json&charset=utf-8"), "any"), Alt(TkPre(role, "/form-get-method?", "a=1&", 2000), "any"), Alt(TkPre(role, "/", "é", 400), "any"),
+                               Alt(TkPre(role, "/a", "😀", 300), "any"), Alt(Tk(role, "/file-upload/initiate?name=../../x&lastModified=z&size=-1"), "any") }
       [] role = "version" -> { Alt(Tk(role, ""), "reject"), Alt(Tk(role, "HTTP/9.9"), "reject"), Alt(Tk(role, "http/1.1"), "any"),
                                Alt(Tk(role, "HTTP/1.1 x"), "reject"), Alt(Tk(role, "HTTP"), "reject") }
       [] role = "sp"      -> { Alt(Tk(role, ""), "reject"), Alt(Tk(role, "  "), "any"), Alt(Tk(role, "\t"), "reject") }
@@ -131,7 +154,11 @@ Alts(role) ==
       [] role = "hvalue"  -> { Alt(Tk(role, ""), "any"), Alt(Tk(role, "a"), "any"), Alt(Tk(role, "-1"), "any"), Alt(Tk(role, "0"), "any"),
                                Alt(Tk(role, "99999999999999999999"), "any"), Alt(Tk(role, "18446744073709551615"), "any"),
                                Alt(Tk(role, "bytes=-"), "any"), Alt(Tk(role, "bytes=0-0,-1,1-"), "any"), Alt(Tk(role, "bytes=-99999999999999999999"), "any"),
-                               Alt(Tk(role, "bytes=5-2"), "any"), Alt(Tk(role, "bytes"), "any"), Alt(Tk(role, "bytes=a-b"), "any"),
+                               Alt(Tk(role, "bytes=5-2"), "any"), Alt(TkPre(role, "bytes=", "0-0,", 2000), "any"), Alt(TkPre(role, "bytes=", "-1,", 3000), "any"),
+                               \* long VALID multi-byte text where a number / token is expected (periods 2, 3, 4, 5, 7: whatever byte offset an
+                               \* implementation cuts at, one of them has a character straddling it)
+                               Alt(TkRep(role, "é", 400), "any"), Alt(TkRep(role, "aé", 300), "any"), Alt(TkRep(role, "😀", 200), "any"),
+                               Alt(TkRep(role, "a😀", 200), "any"), Alt(TkRep(role, "abc😀", 150), "any"), Alt(Tk(role, "bytes"), "any"), Alt(Tk(role, "bytes=a-b"), "any"),
                                Alt(Tk(role, "multipart/form-data; boundary="), "any"), Alt(Tk(role, "multipart/form-data"), "any"),
                                Alt(Tk(role, "application/x-www-form-urlencoded"), "any"),
                                Alt(Tk(role, "x\r\nInjected: 1"), "any"), Alt(Tk(role, "x\nInjected: 1"), "any"), Alt(Tk(role, "x\rInjected: 1"), "any"),
@@ -140,7 +167,11 @@ Alts(role) ==
       [] role = "blank"   -> { Alt(Tk(role, ""), "any"), Alt(Tk(role, "\n"), "any"), Alt(TkRep(role, "a\n", 5000), "any"),
                                Alt(TkRep(role, "a: b\r\n", 200), "any"), Alt(TkRep(role, "\r\n", 3000), "any") }
       [] role = "body"    -> { Alt(Tk(role, ""), "any"), Alt(TkB(role, NonUtf8), "any"), Alt(TkB(role, <<0, 1, 2, 255>>), "any"),
-                               Alt(Tk(role, "k"), "any"), Alt(Tk(role, "=&=&%"), "any"), Alt(Tk(role, "--b1\r\n\r\n--b1--"), "any"),
+                               Alt(Tk(role, "k"), "any"), Alt(Tk(role, "=&=&%"), "any"), Alt(Tk(role, "k=%"), "any"), Alt(Tk(role, "k=v+"), "any"),
+                               Alt(Tk(role, "k=é😀&é=1"), "any"), Alt(Tk(role, "a=1&a=2&A=3"), "any"), Alt(Tk(role, "k=v\r\n"), "any"),
+                               \* structure-level repetition inside the request buffer: hundreds of tiny multipart parts / form fields
+                               Alt(TkRep(role, "--b1\r\nA: b\r\n\r\nx\r\n", 700), "any"), Alt(TkRep(role, "--b1\r\na: \r\n\r\n\r\n", 800), "any"), Alt(TkRep(role, "--b1\r\n\r\n", 1300), "any"),
+                               Alt(TkRep(role, "a=1&", 2400), "any"), Alt(TkRep(role, "&", 9000), "any"), Alt(TkRep(role, "%", 9000), "any"), Alt(Tk(role, "--b1\r\n\r\n--b1--"), "any"),
                                Alt(Tk(role, "--b1\r\nContent-Disposition: form-data\r\n\r\nv\r\n--b1--\r\n"), "any"),
                                Alt(Tk(role, "--b1\r\nContent-Disposition: form-data; name=\"f\"\r\n\r\n"), "any"),
                                Alt(TkPad(role, 9999), "any"), Alt(TkPad(role, 10000), "any"), Alt(TkPad(role, 10001), "any"),
